@@ -287,7 +287,68 @@ func runC06Fresh(r *core.Run) {
 	s.Done()
 }
 
+// runC06URLPairs: every ordered pair of URL-bearing documents on one instance: what the instance learnt about one
+// destination (its scheme, its media type, its escaped form) must not colour the next document's.
+func runC06URLPairs(r *core.Run) {
+	docs, tmpls, urls := c06URLDocs()
+	c06URLPairsRun(r, docs, len(tmpls), len(urls))
+}
+
+// c06URLDocs: URL-bearing constructs × destinations of every class.
+func c06URLDocs() (docs [][]byte, tmpls, urls []string) {
+	urls = []string{"/ok", "http://a.bc/?x=1&y=2", "javascript:alert(1)", "JAVASCRIPT:alert(1)", "vbscript:x", "file:///etc/passwd", "data:text/html,x", "data:image/png;base64,AA",
+		"data:image/svg+xml;base64,AA", "DATA:image/gif;base64,AA", "data:image/png,AA", "Data:text/html,y", "mailto:a@b.cd", "javascript", "data:", "x:y", "java&#115;cript:z", "/a%20b c"}
+	tmpls = []string{"[a](§)", "![a](§)", "<§>", "[a][r]\n\n[r]: §\n", "[a](<§> 't')"}
+	for _, t := range tmpls {
+		for _, u := range urls {
+			docs = append(docs, []byte(strings.ReplaceAll(t, "§", u)))
+		}
+	}
+	return
+}
+
+func c06URLPairsRun(r *core.Run, docs [][]byte, ntmpl, nurl int) {
+	for _, cn := range []string{"core", "all+autoid+attr", "core+unsafe+xhtml"} {
+		cfg := core.MustCfg(cn)
+		fresh := make([][]byte, len(docs))
+		for i, d := range docs {
+			out, _, _ := core.NewConv(cfg).Convert(d)
+			fresh[i] = append([]byte{}, out...)
+		}
+		s := r.Sub("url-pairs/"+cn, fmt.Sprintf("every ordered pair of %d URL-bearing documents (%d constructs × %d destinations: harmless, every dangerous scheme, allowed and refused data: media types, other letter cases) converted one after the other on one new instance under %s: both outputs equal the fresh-instance outputs", len(docs), ntmpl, nurl, cn))
+		s.Planned = int64(len(docs) * len(docs))
+		s.Bound = fmt.Sprintf("%d × %d ordered pairs", len(docs), len(docs))
+		core.ForEachIndex(len(docs), core.Workers(), func(w int) func(int) {
+			return func(i int) {
+				for j := range docs {
+					cv := core.NewConv(cfg)
+					for step, k := range []int{i, j} {
+						out, err, pan := cv.Convert(docs[k])
+						if pan != nil || err != nil || !bytes.Equal(out, fresh[k]) {
+							hist := []string{"Convert(" + core.Q(docs[i]) + ")"}
+							if step == 1 {
+								hist = append(hist, "Convert("+core.Q(docs[j])+")")
+							}
+							s.Violate("history-dependent:url-pairs", cfg.String(), docs[k], hist, fmt.Sprintf("step %d differs from the same conversion on a fresh instance (panic=%v err=%v)", step, pan, err), string(fresh[k]), string(out))
+							break
+						}
+					}
+					s.Evals.Add(1)
+				}
+				s.Distinct(core.Hash(fresh[i]))
+				if i%(len(docs)/5+1) == 0 {
+					s.AddSample([]string{core.Q(docs[i]), core.Q(docs[(i*7+1)%len(docs)])})
+				}
+			}
+		}, r.Expired)
+		s.States.Store(int64(len(docs) * len(docs)))
+		s.Transitions.Store(2 * s.Evals.Load())
+		s.Done()
+	}
+}
+
 func runC06(r *core.Run) {
+	runC06URLPairs(r)
 	runC06Order(r)
 	runC06EntryPoints(r)
 	runC06Fresh(r)
